@@ -308,6 +308,12 @@ func (e *Exec) model(s *State, c *ssa.Call, fn *ssa.Function, full string, args 
 		return ret(Text{}.concat(Text{fr}))
 	case "math.Round":
 		return ret(e.num(s).round(args[0].(*T)))
+	case "math.Trunc":
+		a := toReal(args[0].(*T))
+		return ret(toReal(mkIte(mkCmp(">=", a, mkReal(ratInt(0))), e.num(s).floor(a), e.num(s).ceil(a))))
+	case "math.Abs":
+		a := args[0].(*T)
+		return ret(mkIte(mkCmp(">=", a, mkReal(ratInt(0))), a, mkArith("-", mkReal(ratInt(0)), a)))
 	case "math.Floor":
 		return ret(toReal(e.num(s).floor(args[0].(*T))))
 	case "math.Ceil":
